@@ -295,6 +295,13 @@ class LocalBackend(TrialBackend):
             pause_path.unlink()
         except FileNotFoundError:
             logger.info(f"Pause lock file {str(pause_path)} not found")
+        # Results which the previous job reported after the decision to pause
+        # it (i.e., between the last poll and the job being killed) have not
+        # been fetched, and they are hidden as long as the trial is paused.
+        # They must not be returned as results of the resumed job
+        self._last_metric_seen_index[trial_id] = len(
+            retrieve(log_lines=self.stdout(trial_id=trial_id))
+        )
 
     def _stop_trial(self, trial_id: int, result: Optional[dict]):
         self._file_path(trial_id=trial_id, filename="stop").touch()
